@@ -391,6 +391,9 @@ def close_points(scs, stride, rnd):
 
 # ------------------------------------------------------------------ execution + validation
 def run_scenarios(ctx, scenarios, name="prod", shards=8, timeout=1500):
+    only = set(filter(None, os.environ.get("VERIF_ONLY_SCENARIOS", "").split("\n")))
+    if only and any(s_["name"] in only for s_ in scenarios):
+        scenarios = [s_ for s_ in scenarios if s_["name"] in only]     # --replay: just the reported scenarios
     cases = os.path.join(ctx.scratch, name + ".cases.ndjson")
     with open(cases, "w") as f:
         for s in scenarios:
